@@ -126,4 +126,41 @@ inductive Reach (addr0 : Nat) : LSt → Prop
   | init : Reach addr0 (init addr0)
   | step {s s' a} : Reach addr0 s → step s a = some s' → Reach addr0 s'
 
+/-! ### Two waiting `Leave` calls
+
+`LeavePresence` waits for its own error reply, its context, or a token in `Channel.depart` (buffered,
+capacity one) which the handler fills — without blocking — when the occupant's unavailable presence
+is processed.  Any number of `Leave` calls may wait; one presence leaves one token. -/
+
+structure LvSt where
+  waiting : Nat      -- `Leave` calls in their select
+  token : Bool       -- a token in `depart`
+  joined : Bool
+  returned : Nat     -- `Leave` calls that returned nil
+  presences : Nat    -- unavailable presences of the occupant processed
+  deriving DecidableEq, Repr
+
+inductive LvAct | leaveStart | unavail | leaveReturn
+  deriving DecidableEq, Repr
+
+def lvInit : LvSt := ⟨0, false, true, 0, 0⟩
+
+def lvStep (s : LvSt) : LvAct → Option LvSt
+  | .leaveStart => some { s with waiting := s.waiting + 1 }
+  | .unavail => some { s with token := true, joined := false, presences := s.presences + 1 }
+  | .leaveReturn =>
+    if s.token ∧ s.waiting > 0 then
+      some { s with token := false, waiting := s.waiting - 1, returned := s.returned + 1 }
+    else none
+
+def lvRun : LvSt → List LvAct → Option LvSt
+  | s, [] => some s
+  | s, a :: as => match lvStep s a with
+    | some s' => lvRun s' as
+    | none => none
+
+inductive LvReach : LvSt → Prop
+  | init : LvReach lvInit
+  | step {s s' a} : LvReach s → lvStep s a = some s' → LvReach s'
+
 end XmppModel.MucLive
